@@ -7,6 +7,8 @@ import re
 
 import abbr_gen as g
 import format_util as fu
+import css_stream_util as cu
+import style_util as su
 from markup_util import run_cases, canon_cfg, classify_exc
 
 HERE = os.path.dirname(os.path.abspath(__file__))
@@ -119,6 +121,16 @@ def oracle(abbr, cfg, meta, r):
                 if k != len(emitted):
                     return '%d empty attribute values / empty leaves in the output, %d tabstops emitted (%r)' % (
                         k, len(emitted), emitted[:12])
+    if '{' not in abbr and not uses_field_snippet(abbr, cfg) and not (o.get('output.compactBoolean') and o['output.selfClosingStyle'] != 'html'):
+        # (compact boolean attributes are written name="" outside the html style: not an empty VALUE)
+        # every empty attribute value of the result holds a tabstop: a field callback writes (its empty placeholder)
+        # exactly between the two delimiters -- in every syntax, also for a value written as `[title=""]`
+        field_offsets = set(e[3] for e in events if e[0] == 'field')
+        for m in fu.EMPTY_ATTR_RE.finditer(final):
+            if m.start() + 2 not in field_offsets:
+                return 'the empty attribute value at offset %d (%r) has no tabstop' % (m.start(), final[max(0, m.start() - 12):m.end()])
+    if meta.get('distinct') and len(set(emitted)) != len(emitted):
+        return 'tabstops of different values collide: field indices in document order are %r' % (emitted[:20],)
     groups = meta.get('groups')
     if groups is not None:
         return check_groups(emitted, groups)
@@ -128,7 +140,7 @@ def oracle(abbr, cfg, meta, r):
 # ---------------------------------------------------------------- stylesheet side (implementation only)
 CSS_PARTS = ['p10', 'm10-20', 'm', 'p', 'bd1-s#f', 'c#f00', 'pos:a', 'd:n', 'fz12', 'lh1.5', 'bgc', 'w100p', 'bdrs10',
              'trf:r', 'ov:h', 'fl:l', 'm-a', 'bg', 'bgi', 'c', 'op', 'zi10', 'ff:a', 'tt:u', 'fw:b', 'mt${1:x}', 'p!',
-             'foo:bar', 'bxsh', 'trs', '@m', 'anim', 'gtc']
+             'foo:bar', 'bxsh', 'trs', '@m', 'anim', 'gtc', 'cont"a\nb"', "ff'x\r\ny z'", 'cont"one\n\ntwo"']
 
 
 def impl_style_events(abbr, cfg):
@@ -220,6 +232,12 @@ FIXED = [
     ('ul>li.item$*2>a{t$ ${1:ph}}', {'syntax': 'pug'}),
     ('div.c[title]{a\nb}>p', {'syntax': 'haml', 'options': {'output.baseIndent': '  '}}),
     ('table>tr>td[title= colspan]', {'syntax': 'slim'}),
+    # comments on: the id/class text repeated inside the comment takes part in the one document-order numbering
+    ('div[class="foo ${1:bar}"]>p', {'options': {'comment.enabled': True}}),
+    ('section#s${1:x}.c>p+a[href]', {'options': {'comment.enabled': True, 'comment.before': '<!-- [#ID] -->'}}),
+    ('ul.l${2:m}${1:n}>li.i*2', {'options': {'comment.enabled': True, 'comment.after': '<!-- /[.CLASS] [#ID] -->'}}),
+    ('p[title=""]', {'syntax': 'pug'}), ("a[href='' title]+b[t={}]", {'syntax': 'haml'}), ('p[title=""]>a[href=""]', {'syntax': 'slim'}),
+    ('p[title=""]+a[href=\'\']', {}), ('input[value="" disabled.]', {'syntax': 'pug'}),
 ]
 
 
@@ -261,9 +279,10 @@ def make_case(rng):
 
 
 def run(ctx):
-    ok = ctx.build(['props/C13.vo', 'run/MarkupRun.vo'])
+    ok = ctx.build(['props/C13.vo', 'props/C13Css.vo', 'run/MarkupRun.vo', 'run/CssstreamRun.vo', 'run/StyleEvents.vo'])
     if ok:
         ctx.obligations('props/C13.v')
+        su.obligations(ctx, 'props/C13Css.v')
     model = ctx.model('markup') if ok else None
     ctx.cov['rule'] = (
         'markup: abbreviations from the statement AST generator (attributes with empty / boolean / quoted / expression / '
@@ -276,14 +295,31 @@ def run(ctx):
         'relative numbering inside a value, index ranges of successive values disjoint and increasing (expected structure '
         'from the generator AST). The same cases go through the extracted model (event sequences compared). stylesheet: '
         'snippet sums x css/scss/sass/less/sss/stylus x newline/indent/baseIndent/between/after: positions oracle on the '
-        'implementation. non-trivial = at least one field callback and three text callbacks; distinct by (abbreviation, config).')
+        'implementation. non-trivial = at least one field callback and three text callbacks; distinct by (abbreviation, config). '
+        'stylesheet FORMATTER stream (css_stream): corpus, fixed cases, every built-in snippet key alone, random sums of '
+        'snippet keys / unknown words with numbers, units, colours, keywords, explicit ${n} / ${n:ph} / ${name} fields (also '
+        'with line feeds in the placeholder), strings (also multi-line), function calls, `!`, under css/scss/sass/less/sss/stylus '
+        'x newline in {LF, CRLF, CR, empty, "~~"} x indent x baseIndent x stylesheet.between (also with a line feed) / after x '
+        'format / skipUnmatched / shortHex / json x user snippet tables (property snippets with alternatives, multi-line raw '
+        'snippets) x context scopes x two output.field callbacks (identity, editor tabstop); plus synthetic resolved property '
+        'lists (nested function calls, multi-line literals and names, fields without index, stray tokens) fed to '
+        'emmet.stylesheet.stringify. Oracle per run: positions of every callback as above; per property the indices given to '
+        'output.field differ pairwise like those of its field tokens. Tie 1: the extracted model/CssFormatStream.css_stream on '
+        'the very property list stringify received -- full event sequence (text/field, index, returned string, offset, line, '
+        'column). Tie 2: the whole pipeline from the abbreviation evaluated inside Coq (run/StyleEvents.v) -- same observable.')
+    if os.environ.get('VERIF_C13_PART') == 'css':      # development aid: stylesheet formatter stream only
+        css_stream(ctx, ok)
+        return
     rng = ctx.rng
     cases = []
     for rec in load_corpus():
+        if rec.get('component') == 'C13-css':
+            continue                                   # stylesheet stream corpus: css_stream()
         cases.append((rec['abbr'], rec['config'], rec.get('meta')))
         ctx.cover('C13:corpus')
     for abbr, cfg in FIXED:
-        cases.append((abbr, cfg, {'explicit': fu.has_explicit_field(abbr)}))
+        # in the fixed cases no value mentions the same field index twice: all emitted indices must differ
+        cases.append((abbr, cfg, {'explicit': fu.has_explicit_field(abbr), 'distinct': True}))
     # exhaustive operator skeletons with four decorations (bare, empty attribute, text with fields,
     # self-closed) under five option sets: positions, 1..k numbering, tabstop count, field groups
     max_units = 2 if ctx.tier == 'quick' else 3
@@ -373,10 +409,220 @@ def run(ctx):
             ctx.property_failure('C13:style|%s|%s' % (abbr, canon_cfg(cfg)),
                                  'C13 stylesheet expand(%r, %s): %s' % (abbr, canon_cfg(cfg), bad),
                                  {'component': 'C13-style', 'abbr': abbr, 'config': cfg, 'why': bad})
+    css_stream(ctx, ok)
+
+
+# ---------------------------------------------------------------- stylesheet formatter: callback event stream
+CSS_FIXED = [
+    ('p10+m${1}', su.Cfg()), ('bd+bg', su.Cfg(tabstop=True)), ('p+m', su.Cfg()), ('@kf', su.Cfg(options={'output.newline': '\r\n'})),
+    ('p${1}-${2}+m${1}', su.Cfg('scss', {'output.baseIndent': '  '})), ('bdr${2:a}${1:b}', su.Cfg('stylus')),
+    ('c+bgc', su.Cfg('sass', tabstop=True)), ('trf:r(10)+trs', su.Cfg('less')), ('lg(top, #f00.5)', su.Cfg()),
+    ('m${1:a\nb}+p', su.Cfg(options={'output.newline': '\r\n', 'output.baseIndent': '\t'})),
+    ('foo+bar+baz+mq', su.Cfg('css', {}, cu.USER_TABLES[0])), ('foo+p', su.Cfg('scss', {'output.newline': '\r\n'}, cu.USER_TABLES[0], None, True)),
+    ('gg+ml+two', su.Cfg('css', {'output.baseIndent': '  '}, cu.USER_TABLES[1])), ('k+bd+p', su.Cfg('less', {}, cu.USER_TABLES[2], None, True)),
+    ('@ff+p10!', su.Cfg('css', {'output.newline': '\r\n', 'output.baseIndent': '    '})),
+    ('p10+m5', su.Cfg('css', {'stylesheet.between': ':\n', 'stylesheet.after': ' ;'})),
+    ('a', su.Cfg('css', {}, None, 'margin')), ('p${foo}', su.Cfg(tabstop=True)), ("cnt'a\nb'", su.Cfg()),
+]
+
+
+def css_stream_failure(ctx, kind, abbr, cfg, props, why, tabstop):
+    key = 'C13:css-%s|%s|%s' % (kind, abbr if abbr is not None else repr(props)[:200], cfg.key())
+    ctx.property_failure(key, 'C13 stylesheet %s %r under %s: %s' % (kind, abbr if abbr is not None else 'synthetic properties',
+                                                                      cfg.to_json(), why),
+                         {'component': 'C13-css', 'kind': kind, 'abbr': abbr, 'cfg': cfg.to_json(), 'props': props,
+                          'tabstop': tabstop, 'why': why})
+
+
+def css_stream(ctx, ok):
+    """Stylesheet side of C13: every callback invocation of stylesheet runs.
+    oracle (implementation only) + stage tie (extracted CssFormatStream on the implementation's resolved properties
+    and on synthetic properties) + whole-pipeline tie (events computed inside Coq from the abbreviation)."""
+    rng = ctx.rng
+    quick = ctx.tier == 'quick'
+    model = ctx.model('cssstream') if ok else None
+    corr = ctx.cov['correspondence'].setdefault('css_stream', {'stage_cases': 0, 'stage_disagreements': 0,
+                                                             'pipeline_cases': 0, 'pipeline_disagreements': 0,
+                                                             'out_of_domain': 0})
+    keys = cu.style_keys()
+    caches = {}
+
+    def cache_for(cfg):
+        return caches.setdefault((cfg.syntax, repr(sorted(cfg.snippets.items()))), {})
+
+    # ---- cases from abbreviations: (abbr, Cfg)
+    cases = []
+    for rec in load_corpus():
+        if rec.get('component') == 'C13-css' and rec.get('abbr') is not None:
+            cases.append((rec['abbr'], su.Cfg.from_json(rec['cfg'])))
+            ctx.cover('C13:css-corpus')
+    cases += CSS_FIXED
+    base_cfgs = [su.Cfg(), su.Cfg('scss', {'output.newline': '\r\n', 'output.baseIndent': '  '}, None, None, True),
+                 su.Cfg('stylus', {'output.baseIndent': '\t'}), su.Cfg('sass', {'output.newline': '\r\n'}, None, None, True)]
+    for i, k in enumerate(keys):                       # every built-in snippet, alone
+        cases.append((k, base_cfgs[i % len(base_cfgs)]))
+    n_cfg = 32 if quick else 120
+    per_cfg = 50 if quick else 250
+    cfgs = [cu.rand_cfg(rng) for _ in range(n_cfg)]
+    for cfg in cfgs:
+        for _ in range(per_cfg):
+            cases.append((cu.rand_abbr(rng, keys), cfg))
+    impl = []
+    for abbr, cfg in cases:
+        r = cu.impl_run(abbr, cu.cfg_user_config(cfg), cfg.tabstop, cache_for(cfg))
+        ctx.count_eval()
+        impl.append(r)
+        ctx.cover('C13:css-run-' + r[0])
+        if r[0] == 'hang':
+            css_stream_failure(ctx, 'expand', abbr, cfg, None, 'did not return within %s s' % r[1], cfg.tabstop)
+        if r[0] == 'domain':
+            corr['out_of_domain'] += 1
+        if r[0] != 'ok':
+            continue
+        bad = cu.css_oracle(r[1], r[2], r[3], r[4])
+        if bad:
+            css_stream_failure(ctx, 'expand', abbr, cfg, None, bad, cfg.tabstop)
+        # hypothesis css_raw_ok of C13_css_callback_positions_exact / ..._partial on the RESOLVED properties
+        if cu.raw_ok(r[3], r[4]):
+            ctx.cover('C13:css-raw-ok-holds')
+        elif '\n' not in r[4]['stylesheet.after']:
+            ctx.cover('C13:css-raw-ok-fails')
+            ctx.broken.append({'kind': 'theorem-hypothesis', 'file': 'props/C13Css.v css_raw_ok', 'input': abbr,
+                               'config': cfg.to_json(), 'detail': 'a FunctionCall name of the resolved properties contains a line feed'})
+        ctx.cover('C13:css-syntax-' + cfg.syntax)
+        ctx.cover('C13:css-newline-' + repr(r[4]['output.newline']))
+        ctx.cover('C13:css-callback-' + ('tabstop' if cfg.tabstop else 'identity'))
+        nf = sum(1 for e in r[2] if e[0] == 'field')
+        if nf:
+            ctx.cover('C13:css-with-fields')
+        if any(e[0] == 'field' and '\n' in e[3] for e in r[2]):
+            ctx.cover('C13:css-field-text-with-line-feed')
+        if len({e[1] for e in r[2] if e[0] == 'field'}) < nf:
+            ctx.cover('C13:css-same-index-in-several-values')
+        if r[1].count('\n') and nf:
+            ctx.nontrivial(('css', abbr, cfg.key()))
+    # cache self-check: a sample again with completely fresh configurations
+    n_sc = bad_sc = 0
+    for (abbr, cfg), r in zip(cases, impl):
+        if r[0] == 'ok' and rng.random() < (0.03 if quick else 0.01):
+            fresh = cu.impl_run(abbr, cu.cfg_user_config(cfg), cfg.tabstop, None)
+            n_sc += 1
+            if fresh[:4] != r[:4]:
+                bad_sc += 1
+                ctx.broken.append({'kind': 'impl-cache-selfcheck', 'file': 'css_stream_util.impl_run', 'input': abbr,
+                                   'config': cfg.to_json(), 'cached': repr(r[:3])[:300], 'fresh': repr(fresh[:3])[:300]})
+    corr['impl_cache_selfcheck'] = {'cases': n_sc, 'differences': bad_sc}
+
+    # ---- callbacks that rewrite the text they are given (implementation only: positions oracle)
+    for abbr, cfg in cases[:600 if quick else 6000]:
+        r = cu.impl_run(abbr, cu.cfg_user_config(cfg), True, cache_for(cfg), rewrite=True)
+        ctx.count_eval()
+        ctx.cover('C13:css-rewriting-callbacks-' + r[0])
+        if r[0] == 'ok':
+            bad = fu.positions_check(r[1], cu.oracle_events(r[2]), r[4]['output.newline'])
+            if bad:
+                css_stream_failure(ctx, 'expand-rewriting', abbr, cfg, None, bad, True)
+
+    # ---- synthetic resolved properties straight into stringify
+    syn = []
+    for rec in load_corpus():
+        if rec.get('component') == 'C13-css' and rec.get('abbr') is None:
+            syn.append((cu.build_props(cu.snapshot_from_json(rec['props'])), su.Cfg.from_json(rec['cfg'])))
+    for _ in range(2500 if quick else 30000):
+        syn.append((cu.rand_props(rng), rng.choice(cfgs)))
+    syn_impl = []
+    for props, cfg in syn:
+        r = cu.impl_stringify(props, cu.cfg_user_config(cfg), cfg.tabstop)
+        ctx.count_eval()
+        syn_impl.append(r)
+        ctx.cover('C13:css-synthetic-' + r[0])
+        if r[0] == 'ok':
+            bad = cu.css_oracle(r[1], r[2], r[3], r[4])
+            if bad:
+                css_stream_failure(ctx, 'stringify', None, cfg, r[3], bad, cfg.tabstop)
+            if any(e[0] == 'field' for e in r[2]) and r[1].count('\n'):
+                ctx.nontrivial(('css-syn', repr(r[3]), cfg.key()))
+        elif r[0] == 'err':
+            css_stream_failure(ctx, 'stringify', None, cfg, cu.snapshot_props(props) if r[0] != 'domain' else None,
+                               'stringify raised %s' % (r[2],), cfg.tabstop)
+
+    # ---- stage tie: extracted model/CssFormatStream.css_stream on the very properties stringify received
+    if model is not None:
+        todo = [(('expand', abbr, cfg), r) for (abbr, cfg), r in zip(cases, impl) if r[0] == 'ok'] + \
+               [(('stringify', None, cfg), r) for (props, cfg), r in zip(syn, syn_impl) if r[0] == 'ok']
+        outs = model.run([cu.enc_case(r[4], r[3], meta[2].tabstop) for meta, r in todo])
+        for (meta, r), w in zip(todo, outs):
+            corr['stage_cases'] += 1
+            mo = cu.decode_events(w)
+            if mo != ('ok', cu.canon_events(r[2])):
+                corr['stage_disagreements'] += 1
+                if corr['stage_disagreements'] <= 5:
+                    ctx.say('C13 css stage: model and implementation disagree on %r under %s\n  impl  %r\n  model %r' % (
+                        meta[1] if meta[1] is not None else r[3], meta[2].to_json(), cu.canon_events(r[2])[:12], mo[1][:12] if mo[0] == 'ok' else mo))
+                    ctx.broken.append({'kind': 'correspondence', 'file': 'model/CssFormatStream.v vs emmet/stylesheet/format.py',
+                                       'input': meta[1], 'props': r[3] if meta[1] is None else None, 'config': meta[2].to_json(),
+                                       'impl': repr(cu.canon_events(r[2]))[:400], 'model': repr(mo)[:400]})
+
+    # ---- whole-pipeline tie: events from the abbreviation, computed inside Coq (scorer uses PrimFloat)
+    if ok:
+        pick = [i for i, ((abbr, cfg), r) in enumerate(zip(cases, impl)) if r[0] in ('ok', 'err')]
+        budget = 1000 if quick else 6000
+        head = [i for i in pick if i < len(cases) - n_cfg * per_cfg]          # corpus, fixed, every key
+        tail = [i for i in pick if i >= len(cases) - n_cfg * per_cfg]
+        rng.shuffle(tail)
+        chosen = sorted(head + tail[:max(0, budget - len(head))])
+        res = cu.coq_events(ctx, [(cases[i][1], cases[i][0]) for i in chosen])
+        if res is not None:
+            for i, mo in zip(chosen, res):
+                (abbr, cfg), r = cases[i], impl[i]
+                corr['pipeline_cases'] += 1
+                if r[0] == 'ok':
+                    same = mo == ('ok', cu.canon_events(r[2]))
+                else:
+                    same = mo[0] != 'ok'            # which error is C07's business
+                if not same:
+                    corr['pipeline_disagreements'] += 1
+                    if corr['pipeline_disagreements'] <= 5:
+                        ctx.say('C13 css pipeline: model and implementation disagree on %r under %s\n  impl  %r\n  model %r' % (
+                            abbr, cfg.to_json(), cu.canon_events(r[2])[:12] if r[0] == 'ok' else r, mo[1][:12] if mo[0] == 'ok' else mo))
+                        ctx.broken.append({'kind': 'correspondence', 'file': 'model/CssExpandStream.v vs emmet.expand (stylesheet)',
+                                           'input': abbr, 'config': cfg.to_json(),
+                                           'impl': repr(cu.canon_events(r[2]) if r[0] == 'ok' else r)[:400], 'model': repr(mo)[:400]})
+    for (abbr, cfg), r in list(zip(cases, impl))[3:5]:
+        if r[0] == 'ok':
+            ctx.sample({'stylesheet': abbr, 'config': cfg.to_json(), 'callbacks': [list(e) for e in r[2][:8]]})
+
+
+def replay_css(ctx, rp):
+    cfg = su.Cfg.from_json(rp['cfg'])
+    if rp.get('kind') == 'expand-rewriting':
+        r = cu.impl_run(rp['abbr'], cu.cfg_user_config(cfg), True, None, rewrite=True)
+        bad = fu.positions_check(r[1], cu.oracle_events(r[2]), r[4]['output.newline']) if r[0] == 'ok' else None
+        print('C13 stylesheet (rewriting callbacks) %r under %s\n  -> %r\n  %s' % (
+            rp['abbr'], cfg.to_json(), r[:3], ('property fails: ' + bad) if bad else 'property holds'))
+        return 1 if bad else 0
+    if rp.get('abbr') is not None:
+        r = cu.impl_run(rp['abbr'], cu.cfg_user_config(cfg), rp.get('tabstop', cfg.tabstop))
+    else:
+        r = cu.impl_stringify(cu.build_props(cu.snapshot_from_json(rp['props'])), cu.cfg_user_config(cfg),
+                              rp.get('tabstop', cfg.tabstop))
+    if r[0] == 'ok':
+        bad = cu.css_oracle(r[1], r[2], r[3], r[4])
+    elif r[0] == 'hang':
+        bad = 'did not return within %s s' % r[1]
+    elif r[0] == 'err' and rp.get('abbr') is None:
+        bad = 'stringify raised %s' % (r[2],)
+    else:
+        bad = None
+    print('C13 stylesheet %r under %s\n  -> %r\n  %s' % (rp.get('abbr') if rp.get('abbr') is not None else rp.get('props'),
+                                                          cfg.to_json(), r[:3], ('property fails: ' + bad) if bad else 'property holds'))
+    return 1 if bad else 0
 
 
 def replay(ctx, obj):
     rp = obj.get('replay', {})
+    if rp.get('component') == 'C13-css':
+        return replay_css(ctx, rp)
     if 'abbr' not in rp:
         print('replay names a broken obligation, no input: %s' % str(rp)[:300])
         return 1
